@@ -40,6 +40,7 @@ def c_payload(p):
     if p[0] == "empty": return "PEmpty"
     if p[0] == "text": return "PText"
     if p[0] == "fb": return f"(PFallback {FB[p[1]]})"
+    if p[0] == "self": return f"(PSelf {int(p[1])} {c_payload(p[2])})"
     raise Undecodable(p)
 
 
@@ -59,7 +60,7 @@ def c_op(o):
     if k == "reg":
         check, sig = (o[4], o[5]) if len(o) >= 7 else (False, "ok")
         return (f"ORegister {o[1]} {{| r_details := {b(o[2])}; r_coro := {b(o[3])}; r_check := {b(check)}; "
-                f"r_sig := {SIG[sig]} |}}")
+                f"r_sig := {SIG[sig]}; r_obj := None |}}")
     if k == "unreg": return f"OUnregister {o[1]}"
     if k == "inv": return f"OInvocation {o[1]} {o[2]} {c_payload(o[3])} {c_idet(o[4])} {c_ob(o[5])} {c_beh(o[6])}"
     if k == "int": return f"OInterrupt {o[1]}"
@@ -117,7 +118,16 @@ def model_ops(case):
 
 def coq_case(fw, case, log):
     ecls = "[" + "; ".join(f"({c}, {u})" for c, u in case.get("ecls", [])) + "]"
-    ops = "[" + ";\n   ".join(c_op(o) for o in model_ops(case)) + "]"
+    segs, cur = [], []
+    for o in model_ops(case):
+        if o[0] == "regobj":            # the model's reading of session.register(obj, options=.., prefix=..)
+            if cur: segs.append("[" + ";\n   ".join(cur) + "]"); cur = []
+            ms = "; ".join(f"({r}, {c_ob(own)}, {b(co)})" for r, own, co in o[5])
+            segs.append(f"reg_object {o[1]} {c_ob(o[3])} [{ms}]")
+        else:
+            cur.append(c_op(o))
+    if cur or not segs: segs.append("[" + ";\n   ".join(cur) + "]")
+    ops = "(" + " ++\n   ".join(segs) + ")"
     outs = "[" + ";\n   ".join(c_out(e) for e in log if e[0] != "op") + "]"
     return f"({'Tx' if fw == 'tx' else 'Aio'}, {c_spec(fw, case['transport'])}, {ecls},\n  {ops},\n  {outs})"
 
@@ -141,7 +151,17 @@ def g_reg(rng, reg, p_details=0.65, p_coro=0.3):
     r = rng.random()
     sig = "ok" if r < 0.84 else ("short" if r < 0.91 else "ill")
     kind = rng.choice(KINDS if sig != "ill" else [k for k in KINDS if k != "both"])
-    return ["reg", reg, rng.random() < p_details, rng.random() < p_coro and not check, check, sig, kind]
+    return ["reg", reg, rng.random() < p_details, rng.random() < p_coro and not check, check, sig, kind, rng.random() < 0.3]
+
+
+FLAVOURS = ["truthy", "empty", "false", "flip", "oddeq"]
+
+
+def g_regobj(rng, oid, regs):
+    """session.register(obj, options, prefix): decorated methods with / without own options in any order, call-level
+    options absent / without / with details, an instance that may be falsy, change truthiness, or compare oddly"""
+    methods = [[r, rng.choice([None, None, False, True]), rng.random() < 0.25] for r in regs]
+    return ["regobj", oid, rng.choice(FLAVOURS), rng.choice([None, False, True]), rng.random() < 0.3, methods]
 
 
 def g_rp(rng):
@@ -202,9 +222,13 @@ def drain(ops, ninv, fw):
 def gen_fake(rng, fw, nops):
     pool = [0]
     ops, regs = [], []
-    for i in range(rng.choice([1, 2, 2, 3])):
-        regs.append(100 + i)
-        ops.append(g_reg(rng, 100 + i))
+    if rng.random() < 0.35:
+        regs += [100, 101] + ([102] if rng.random() < 0.5 else [])
+        ops.append(g_regobj(rng, 1, list(regs)))
+    else:
+        for i in range(rng.choice([1, 2, 2, 3])):
+            regs.append(100 + i)
+            ops.append(g_reg(rng, 100 + i))
     reqs, ninv, argid, pend_guess = [], 0, 1000, []
     lost = False
     for _ in range(nops):
@@ -319,7 +343,30 @@ def fixed_real(fw, kind, role, ser):
     cases.append({"transport": {"kind": kind, "role": role, "ser": ser, "limit": L}, "ecls": [[1, 5]], "ops": ops})
     cases.append(sig_case({"kind": kind, "role": role, "ser": ser, "limit": 512}, coro=(role == "client")))
     cases.append(tristate_case({"kind": kind, "role": role, "ser": ser, "limit": 512}, coro=(role == "server")))
+    cases.append(object_case({"kind": kind, "role": role, "ser": ser, "limit": 512},
+                             FLAVOURS[(len(ser) + (role == "client") + 2 * (kind == "ws")) % len(FLAVOURS)], coro=(role == "client")))
     return [norm_case(c) for c in cases]
+
+
+def object_case(transport, flavour, coro=False):
+    """object registration: methods with own options (details / no details) and without, in both orders, under
+    call-level options absent / without details / with details, with and without prefix; one invocation per method
+    with receive_progress so that a leaked or missing details argument shows"""
+    V = lambda i: ["val", i, False, False]
+    ops, reg, req, oid = [], 100, 0, 0
+    for call in (None, False, True):
+        for order in ([True, None, False], [None, True], [False, None, True, None]):
+            oid += 1
+            methods = [[reg + i, own, coro and i % 2 == 1] for i, own in enumerate(order)]
+            ops.append(["regobj", oid, flavour, call, oid % 2 == 0, methods])
+            for r, own, co in methods:
+                req += 1
+                ops.append(["inv", req, r, V(3800 + req), [4, None, None], True,
+                            {"pre": [V(700 + req)] if (own if own is not None else bool(call)) else [], "fin": ["ret", ["plain", V(750 + req)]]}])
+            reg += len(order)
+    ops += [["reg", reg, True, coro, False, "ok", "varkw", True], ["inv", req + 1, reg, V(3800 + req + 1), [None, None, None], None,
+            {"pre": [], "fin": ["ret", ["plain", V(799)]]}], ["turn"], ["turn"]]
+    return {"transport": transport, "ecls": [[1, 5]], "ops": ops}
 
 
 def norm_case(case):
@@ -385,6 +432,22 @@ def sig_case(transport, coro=False):
 # ---------------------------------------------------------------------------------------------------------------
 # the property oracle (from the property text; knows nothing about the model)
 # ---------------------------------------------------------------------------------------------------------------
+def pid(p):
+    """id of the application payload token inside a (possibly self-prefixed) payload"""
+    if p and p[0] == "self": p = p[2]
+    return p[1] if p and p[0] == "val" else None
+
+
+def reg_entries(o):
+    """the registrations an op creates, as ["reg", reg, wants, coro, check, sig, kind, prefix, obj id]:
+    for an object each method with ITS effective options (own decorator options, else the call-level ones)"""
+    if o[0] == "reg":
+        return [list(o) + [False, "ok", "both", False, None][max(0, len(o) - 4):]]
+    if o[0] == "regobj":
+        return [["reg", r, (own if own is not None else bool(o[3])), co, False, "ok", "both", o[4], o[1]] for r, own, co in o[5]]
+    return []
+
+
 def transport_name(fw, tr):
     if tr["kind"] == "fake": return "fake"
     return {"ws": "websocket", "rs": "rawsocket"}[tr["kind"]] + "." + ("twisted" if fw == "tx" else "asyncio")
@@ -417,11 +480,13 @@ def oracle(fw, case, log):
         elif cur is not None: segs[cur].append(e)
     reg_of_inv, active_reg, j0 = {}, {}, True
     for i, o in enumerate(ops):
-        if o[0] == "reg" and j0 and o[1] not in active_reg: active_reg[o[1]] = o
+        if o[0] in ("reg", "regobj") and j0:
+            for r in reg_entries(o):
+                if r[1] not in active_reg: active_reg[r[1]] = r
         elif o[0] == "unreg" and j0: active_reg.pop(o[1], None)
         elif o[0] == "lose": j0 = False
         elif o[0] == "inv": reg_of_inv[o[3][1]] = active_reg.get(o[2])
-    active_reg_final = {o[1]: o for o in ops if o[0] == "reg"}
+    active_reg_final = {r[1]: r for o in ops for r in reg_entries(o)}
     def unfit(o):
         """the caller's arguments do not fit the endpoint (no binding; or type hint violated under check_types)"""
         r = reg_of_inv.get(o[3][1])
@@ -444,7 +509,7 @@ def oracle(fw, case, log):
             # which result was to be delivered?  (for the key only)
             cands = []                      # (path, unser, big) of the first result each call's on_reply got
             for a in acc_by_req[req]:
-                o = inv_by_arg.get(a[4][1])
+                o = inv_by_arg.get(pid(a[4]))
                 cand = None
                 if o:
                     f = o[6]["fin"]
@@ -478,6 +543,9 @@ def oracle(fw, case, log):
         seg = segs.get(i, [])
         rejected = any(e[0] == "raised" and e[1] == "msg" for e in seg)
         if o[0] == "reg" and joined and not rejected: regs_active.add(o[1])
+        elif o[0] == "regobj" and joined:
+            # per method: a REGISTERED for an id that is still registered is refused (one ProtocolError each, in order)
+            for r in reg_entries(o): regs_active.add(r[1])
         elif o[0] == "unreg" and joined: regs_active.discard(o[1])
         elif o[0] == "lose": joined = False
         elif o[0] == "inv" and joined and ok_transport and o[2] in regs_active:
@@ -493,7 +561,7 @@ def oracle(fw, case, log):
     #     the size limit (and nothing else interfered: no INTERRUPT, no failing progress call, arguments fit)
     if stayed_up and ok_transport:
         for a in acc:
-            o = inv_by_arg.get(a[4][1])
+            o = inv_by_arg.get(pid(a[4]))
             if o is None or a[2] in interrupted or len(acc_by_req.get(a[2], [])) != 1: continue
             pre = o[6]["pre"]
             if pre and not (a[6] is True and a[7]): continue
@@ -537,8 +605,13 @@ def oracle(fw, case, log):
         if e[0] == "called":
             calls[e[1]] = calls.get(e[1], 0) + 1
             a = next((x for x in acc if x[1] == e[1]), None)
-            o = inv_by_arg.get(e[4][1]) if e[4][0] == "val" else None
-            good = a is not None and o is not None and e[2] == o[1] and e[3] == o[2] and e[4] == o[3]
+            o = inv_by_arg.get(pid(e[4]))
+            r = reg_of_inv.get(pid(e[4]))
+            oid = r[8] if r is not None and len(r) > 8 else None
+            good = (a is not None and o is not None and e[2] == o[1] and e[3] == o[2]
+                    and e[4] == (o[3] if oid is None else ["self", oid, o[3]]))      # the instance first, then the caller's arguments
+            if good and r is not None and bool(a[7]) != bool(r[2]):
+                good = False        # registered with / without a details argument against the options this endpoint asked for
             if good:
                 wants = a[7]
                 exp = [o[4][0], o[4][1], o[4][2] if o[4][2] is not None else o[2]]     # procedure defaults to the registration's
@@ -546,14 +619,14 @@ def oracle(fw, case, log):
             if not good:
                 viol.append(("session.invocation/argument-fidelity", f"endpoint call {e} does not match the INVOCATION {o}", e[2]))
     for a in acc:
-        o = inv_by_arg.get(a[4][1])
+        o = inv_by_arg.get(pid(a[4]))
         if o is not None and unfit(o) and a[1] in calls:
             viol.append(("session.invocation/unfit-arguments-not-rejected", f"endpoint entered although the arguments do not fit: {a}", a[2]))
     for k, n in calls.items():
         if n != 1: viol.append(("session.invocation/called-twice", f"endpoint call {k} entered {n} times", k))
     if fw == "tx":
         for a in acc:
-            o = inv_by_arg.get(a[4][1])
+            o = inv_by_arg.get(pid(a[4]))
             if o is not None and unfit(o): continue
             if a[1] not in calls: viol.append(("session.invocation/not-called", f"accepted invocation {a} never reached the endpoint", a[2]))
     return viol
@@ -594,7 +667,8 @@ def run(ck):
         "op histories (register/unregister, INVOCATION with an endpoint behaviour {returns plain/None/CallResult, small/"
         "un-serializable/oversized; raises ApplicationError/registered/unregistered class; returns a pending result "
         "resolved or failed later; coroutine; emits 0-3 progressive results, also after finishing}, INTERRUPT, transport "
-        "loss, loop turns; <= 3 concurrent; registrations with check_types on/off x endpoint signature kinds {fixed, defaults, "
+        "loss, loop turns; <= 3 concurrent; object registrations (decorated methods with / without own options in every order x "
+        "call-level options x prefix x instances that are falsy / change truthiness / compare oddly); registrations with check_types on/off x endpoint signature kinds {fixed, defaults, "
         "*args, **kwargs, both, keyword-only} x arguments that fit / do not bind / contradict a type hint, the endpoints "
         "reporting exactly what they received) over (a) the wampdrv fake transport with a scripted send() classification "
         "table and (b) the real WampWebSocket{Server,Client}Protocol / WampRawSocket{Server,Client}Protocol (Twisted and "
@@ -633,6 +707,8 @@ def run(ck):
         for coro in (False, True):
             cases.append(norm_case(sig_case({"kind": "fake", "tbl": OK_TBL}, coro))); labels.append("fake-signatures")
             cases.append(tristate_case({"kind": "fake", "tbl": OK_TBL}, coro)); labels.append("fake-tristate")
+            for fl_ in FLAVOURS:
+                cases.append(object_case({"kind": "fake", "tbl": OK_TBL}, fl_, coro)); labels.append("fake-objects")
         rng = ck.rng("fake/" + fw)
         for i in range(n_fake):
             cases.append(gen_fake(rng, fw, rng.choice([4, 6, 8, 10, 12, 16] if quick else [4, 8, 12, 16, 24])))
